@@ -234,3 +234,85 @@ def classify(o, s, added):
     if is_exactly(q, z3.Not(o.c)):
         return "false" if s.pc == NEXT_PC and s.advanced == [None] else None
     return None
+
+
+def replay_jumpi(r):
+    """drive the real SEVM.jumpi on a real Exec with a scripted Exec.check (the solver answers of the
+    refuted case) and the model's visit counts / loop bound / target validity; compare what it
+    pushes, logs and raises with the reference rule of the contract"""
+    import re
+
+    from contracts.common import config, mk_ex, mk_sevm
+
+    case = r.get("id", "").rsplit("/", 1)[-1]
+    m = re.search(r"check\(c\)=(\w+),check\(not c\)=(\w+)", case)
+    if not m:
+        return {"reproduced": None, "detail": "case name not understood"}
+    ct, cf = m.group(1), m.group(2)
+    model = r.get("model") or {}
+    first = "first-visit" in case
+    cands = []
+    base = dict(vt=0 if first else int(model.get("visited_true", 0) or 0), vf=0 if first else int(model.get("visited_false", 0) or 0), loop=int(model.get("loop", 2) or 0), valid=bool(model.get("target_is_valid_jumpdest", True)))
+    cands.append(base)
+    for valid in (True, False):
+        for vt, vf, loop in ((0, 0, 2), (2, 0, 2), (0, 2, 2), (2, 2, 2), (1, 1, 1), (0, 0, 0), (3, 1, 2)):
+            if first and (vt or vf):
+                continue
+            cands.append(dict(vt=vt, vf=vf, loop=loop, valid=valid))
+    for cnd in cands:
+        vt, vf, loop, valid = cnd["vt"], cnd["vf"], cnd["loop"], cnd["valid"]
+        sevm = mk_sevm(loop=loop)
+        # 0: JUMPI  1: STOP  2: JUMPDEST 3: STOP        (target 2 valid, target 1 invalid)
+        ex = mk_ex(sevm, bytes([0x57, 0x00, 0x5B, 0x00]))
+        target = 2 if valid else 1
+        c = z3.Bool("c")
+        answers = {"true": RES[ct], "false": RES[cf]}
+
+        def check(q, c=c, answers=answers):
+            return answers["true"] if is_exactly(q, c) else answers["false"]
+
+        ex.check = check
+        jid = ex.jumpid()
+        if not first:
+            ex.jumpis[jid] = {True: vt, False: vf}
+        stack = hs.Worklist()
+        raised = None
+        try:
+            sevm.jumpi(ex, stack, target, hb.HalmosBool(c))
+        except InvalidJumpDestError as e:
+            raised = e
+        except Exception as e:  # noqa
+            return {"reproduced": True, "detail": f"real SEVM.jumpi raised {type(e).__name__}: {e} for {cnd}, answers ({ct},{cf})", "inputs": cnd}
+        pot_t, pot_f = ct != "unsat", cf != "unsat"
+        decided = (ct, cf) in (("sat", "unsat"), ("unsat", "sat"))
+        want_t = pot_t and (decided or vt < loop)
+        want_f = pot_f and (decided or vf < loop)
+        want_logged = (pot_t and not want_t) or (pot_f and not want_f)
+        got = []
+        for s in stack.stack:
+            conds = list(s.path.conditions) + list(s.path.pending)
+            kind = "true" if any(is_exactly(q, c) for q in conds) else ("false" if any(is_exactly(q, z3.Not(c)) for q in conds) else "?")
+            err = s.context.output.error
+            got.append((kind, s.pc, type(err).__name__ if err is not None else None))
+        exp = []
+        exp_raise = False
+        if want_t:
+            if valid:
+                exp.append(("true", target if want_f else target + 1, None))
+            elif want_f:
+                exp.append(("true", 0, "InvalidJumpDestError"))
+            else:
+                exp_raise = True
+        if want_f and not exp_raise:
+            exp.append(("false", 1, None))
+        got_n = sorted((k, e) for k, _, e in got)
+        exp_n = sorted((k, e) for k, _, e in exp)
+        pcs_ok = all(e is not None or (k == "true" and pc in (target, target + 1)) or (k == "false" and pc == 1) for k, pc, e in got)
+        logged = jid in sevm.logs.bounded_loops
+        if got_n != exp_n or (raised is not None) != exp_raise or logged != want_logged or not pcs_ok:
+            return {
+                "reproduced": True,
+                "detail": f"real SEVM.jumpi with check(c)={ct}, check(not c)={cf}, visited=({vt},{vf}), --loop {loop}, target {'valid' if valid else 'invalid'}: pushed {got}, raised {type(raised).__name__ if raised else None}, bounded_loops logged={logged}; the contract requires successors {exp}, raise={exp_raise}, logged={want_logged}",
+                "inputs": dict(cnd, check_true=ct, check_false=cf),
+            }
+    return {"reproduced": False, "detail": "real SEVM.jumpi agrees with the reference rule on the model and the boundary grid"}
